@@ -400,6 +400,9 @@ func blockStringValue(in string) string {
 		for i := 1; i < len(lines); i++ {
 			line := lines[i]
 			if commonIndent > len(line) {
+				// a blank line shorter than the common indentation
+				// loses all of its whitespace
+				lines[i] = ""
 				continue
 			}
 			lines[i] = line[commonIndent:]
